@@ -5,13 +5,19 @@
 package main
 
 import (
+	"encoding/json"
 	"flag"
 	"fmt"
 	"os"
+	"os/exec"
+	"path/filepath"
+	"regexp"
 	"runtime/debug"
 	"sort"
+	"strings"
 
 	"verif/tool/core"
+	"verif/tool/patch"
 	"verif/tool/props"
 )
 
@@ -37,6 +43,7 @@ func main() {
 		fs := flag.NewFlagSet("check", flag.ExitOnError)
 		tier := fs.String("tier", envOr("VERIF_TIER", "quick"), "quick|thorough")
 		replay := fs.String("replay", "", "replay a violation file")
+		patchFile := fs.String("patch", "", "analyse /repo with this unified diff applied in memory (self-test; writes no evidence)")
 		fs.Parse(os.Args[3:])
 		if *tier != "quick" && *tier != "thorough" {
 			*tier = "quick"
@@ -49,6 +56,23 @@ func main() {
 		run := core.NewRun(id, *tier)
 		run.SetReplay(*replay)
 		ctx := props.NewCtx(run)
+		if *patchFile != "" {
+			os.Setenv("VERIF_NO_EVIDENCE", "1")
+			files, err := patch.Apply(run.RepoDir, *patchFile)
+			if err != nil {
+				fmt.Printf("STALE: %v\n", err)
+				os.Exit(3)
+			}
+			ctx.Overlay = map[string][]byte{}
+			ctx.TmplOverlay = map[string]string{}
+			for rel, content := range files {
+				if strings.HasSuffix(rel, ".go") {
+					ctx.Overlay[filepath.Join(run.RepoDir, rel)] = []byte(content)
+				} else {
+					ctx.TmplOverlay[rel] = content
+				}
+			}
+		}
 		code := func() (code int) {
 			defer func() {
 				if r := recover(); r != nil {
@@ -63,10 +87,20 @@ func main() {
 				}
 			}()
 			f(ctx)
-			if *tier == "thorough" {
+			if *tier == "thorough" && *patchFile == "" {
+				// build variants: the same rules over the packages as built for windows (the
+				// repository's only build-tagged files are *_win.go / *_nonwin.go)
+				for _, v := range []string{"GOOS=windows"} {
+					run.SetVariant(v)
+					vctx := props.NewCtx(run)
+					vctx.ExtraEnv = []string{v}
+					f(vctx)
+				}
+				run.SetVariant("")
 				if t, ok := props.Thorough[id]; ok {
 					t(ctx)
 				}
+				selfTest(run, id)
 			}
 			return run.Finish()
 		}()
@@ -91,6 +125,88 @@ func main() {
 	default:
 		usage()
 	}
+}
+
+var violatedRx = regexp.MustCompile(`VIOLATED (\S+) ::`)
+
+// selfTest re-runs the check, in a sub-process each, on in-memory mutants of /repo: every
+// seeded change kept under /verif/seeded/<id>/ and every hand-written mutant under
+// /verif/mutants/<id>/. The outcome is recorded in the evidence; it never changes the exit
+// status, which speaks about /repo's tree only.
+func selfTest(run *core.Run, id string) {
+	type res struct {
+		Mutant   string   `json:"mutant"`
+		Outcome  string   `json:"outcome"` // detected | undetected | stale
+		Rules    []string `json:"rules,omitempty"`
+		Expected string   `json:"expected,omitempty"`
+	}
+	var results []res
+	var files []string
+	for _, dir := range []string{"seeded", "mutants"} {
+		m, _ := filepath.Glob(filepath.Join(run.VerifDir, dir, id, "*", "patch.diff"))
+		files = append(files, m...)
+		m, _ = filepath.Glob(filepath.Join(run.VerifDir, dir, id, "*.diff"))
+		files = append(files, m...)
+	}
+	sort.Strings(files)
+	det, undet, stale, regress := 0, 0, 0, 0
+	for _, f := range files {
+		cmd := exec.Command(os.Args[0], "check", id, "--tier", "quick", "--patch", f)
+		cmd.Env = append(os.Environ(), "VERIF_NO_EVIDENCE=1")
+		out, _ := cmd.CombinedOutput()
+		code := 0
+		if cmd.ProcessState != nil {
+			code = cmd.ProcessState.ExitCode()
+		}
+		rel, _ := filepath.Rel(run.VerifDir, f)
+		r := res{Mutant: rel}
+		// expectation recorded when the change was collected
+		if b, err := os.ReadFile(filepath.Join(filepath.Dir(f), "meta.json")); err == nil {
+			var meta struct {
+				Detection struct {
+					Detected *bool  `json:"detected"`
+					Note     string `json:"note"`
+				} `json:"detection"`
+			}
+			if json.Unmarshal(b, &meta) == nil && meta.Detection.Detected != nil {
+				if *meta.Detection.Detected {
+					r.Expected = "detected"
+				} else {
+					r.Expected = "undetected"
+				}
+			}
+		} else if strings.Contains(f, string(filepath.Separator)+"mutants"+string(filepath.Separator)) {
+			r.Expected = "detected"
+		}
+		switch code {
+		case 3:
+			r.Outcome = "stale"
+			stale++
+		case 1:
+			r.Outcome = "detected"
+			det++
+			seen := map[string]bool{}
+			for _, m := range violatedRx.FindAllStringSubmatch(string(out), -1) {
+				if !seen[m[1]] {
+					seen[m[1]] = true
+					r.Rules = append(r.Rules, m[1])
+				}
+			}
+		default:
+			r.Outcome = "undetected"
+			undet++
+		}
+		if r.Expected == "detected" && r.Outcome == "undetected" {
+			regress++
+			fmt.Printf("SELF-TEST REGRESSION: %s was detected when it was collected and is not any more\n", rel)
+		}
+		results = append(results, r)
+	}
+	fmt.Printf("self-test: %d mutants of /repo analysed in memory: %d detected, %d undetected, %d stale (no longer apply), %d regressions\n", len(files), det, undet, stale, regress)
+	run.Analysed("self-test mutants", len(files))
+	run.Analysed("self-test mutants detected", det)
+	run.Extra("self_test", map[string]any{"mutants": len(files), "detected": det, "undetected": undet, "stale": stale, "regressions": regress, "results": results,
+		"meaning": "each mutant is a source change that breaks the property while compiling and passing the test-suite (seeded changes kept under /verif/seeded, hand-written ones under /verif/mutants); it is applied to /repo's current files in memory (go/packages overlay, template overlay) and the quick rules are re-run on it in a sub-process; undetected mutants with expectation 'undetected' are documented misses or changes neutralised by a later repair"})
 }
 
 func envOr(k, d string) string {
